@@ -42,7 +42,9 @@ parse, a compilation, a Join - and the same process, object or connection is use
 eleventh to flow control (fine on generously buffered transports, broken on synchronous or
 tiny-buffer ones) and to aliasing and retention (a value returned to or passed by the caller
 shares memory with library state), the twelfth to two cooperating sites that are each correct
-alone and to rarely used options and secondary entry points.
+alone and to rarely used options and secondary entry points, the thirteenth was told to make
+the change hard to find by random testing (a trigger below one in a million per random session
+that structured real-world data produces readily).
 All %d changes were
 confirmed by `bin/confirm-seeded` (patch applies to HEAD; `go build ./...`; `go test` of every
 package except the root passes; the demonstration fails with the change and passes without it) and
@@ -86,6 +88,12 @@ The twelfth wave: eight caught at once, six after an extension - every one a mem
 quantifier nobody had tried: the verbose flag, an empty slice of zero-width elements, a native
 circuit with OR gates, label and bit batches on one IKNP pair, one endpoint spelled two ways, a
 key buffer the caller refills.
+The thirteenth wave aimed at the limits of sampling, and found them where the *generators* were
+random rather than where the technique is: five caught at once, nine after a generator learned a
+structure - negative numbers, a thousand protocol rounds times sixty-five, a million gates, 2^15
+vector elements, a periodic corruption, two machines with one random stream, a symbol table
+with holes, Go values instead of strings - and, for C17-m, after garbage collection became a seam.
+None of the fourteen needed a coincidence that stays out of reach once the shape is generated.
 
 ''' % (ordn[len(waves) - 1].capitalize(), len(rows), len(own), len(missed), len(rows), per_wave, ', '.join(m['name'] for m in notcaught))
 out += '''| change | property | what was changed | needs | clause that fires | missed at first? |
@@ -195,6 +203,15 @@ What the misses taught (kept as rules for the workloads):
   (C16-l), circuits from other tools (C05-l), the second form of the same primitive on the same
   object (C06-l), the other spelling of the same address (C19-l), the empty slice (C14-l), the key
   buffer a caller refills (C17-l). Each is one more tape choice in a world.
+
+* Random generators make random data; users make structured data: negative numbers (C02-m, C05-m),
+  equal operands, runs of ones, exact powers of two as sizes (C14-m 2^20, C20-m 2^15, C10-m 2^16),
+  periodic damage (C16-m), cloned machines (C18-m), hand-edited files (C08-m). Every generator has a
+  structured branch now; the expensive shapes (a million gates, 65 thousand rounds) are one case in
+  a few hundred.
+* A test circuit must not forgive: the first deep chain of C10 reset itself at every 0 bit and
+  computed the right answer from wrong intermediate values.
+* The garbage collector is a scheduler too (C17-m): finalizers run when the simulator says so.
 
 Own mutants (`/verif/mutants/*.diff`; `revert-<commit>` is a `fix:` commit reversed): ''' + ', '.join(own) + '''.
 
